@@ -146,12 +146,12 @@ func (w *c02World) policy(ns, name string) *c02Policy { return w.Policies[ns+"|"
 
 // c02Req is one client request.
 type c02Req struct {
-	Op     string         `json:"op"`
-	Path   string         `json:"path"`
-	Header string         `json:"ns_header,omitempty"`
-	Tok    *c02Tok        `json:"token"`
-	Remote string         `json:"remote,omitempty"`
-	Data   map[string]any `json:"data,omitempty"`
+	Op      string         `json:"op"`
+	Path    string         `json:"path"`
+	Header  string         `json:"ns_header,omitempty"`
+	Tok     *c02Tok        `json:"token"`
+	Remote  string         `json:"remote,omitempty"`
+	Data    map[string]any `json:"data,omitempty"`
 	Why     string         `json:"gen,omitempty"`
 	WrapTTL int            `json:"wrap_ttl_s,omitempty"`
 }
